@@ -287,6 +287,44 @@ def gen_allof(ctx, depth):
     return s
 
 
+def allof_family():
+    """enumerated intersections (schema.rs intersect), each with candidate instance texts: (name, schema, [texts])
+    arrays: a tuple against an `items` schema or a tuple of another length, both operand orders, as allOf or as sibling
+    keywords + allOf; strings: constants / enums / length bounds, disjoint ones in optional and required positions"""
+    out = []
+    I, S, B = {"type": "integer"}, {"type": "string"}, {"type": "boolean"}
+    arr_inst = ["[]", "[1]", "[1,2]", '[1,"x"]', '["x"]', '["x","y"]', "[1,2,3]", '[1,2,"x"]', "[true]", "[1,true]", '["x",1]']
+    k = 0
+    for pre in ([I], [I, I], [S, I], [I, B]):
+        for items in (S, I, B, False, None):
+            for other in ({"items": S}, {"items": I}, {"prefixItems": [I], "items": S}, {"prefixItems": [S, S, S]}, {"items": B, "minItems": 1}):
+                a = {"type": "array", "prefixItems": pre}
+                if items is not None:
+                    a["items"] = items
+                b = dict({"type": "array"}, **other)
+                for form in range(4):
+                    x, y = (a, b) if form % 2 == 0 else (b, a)
+                    s = {"allOf": [x, y]} if form < 2 else dict(x, allOf=[y])
+                    out.append((f"allof:arr{k}:{form}", s, arr_inst))
+                k += 1
+    strs = ["cat", "dog", "bird", "a"]
+    cons = [{"const": "cat"}, {"const": "bird"}, {"enum": ["cat", "dog"]}, {"enum": ["dog", "a"]}, {"type": "string", "maxLength": 1},
+            {"type": "string", "minLength": 4}]
+    k = 0
+    for i, x in enumerate(cons):
+        for j, y in enumerate(cons):
+            if i == j:
+                continue
+            inner = {"allOf": [x, y]} if (i + j) % 2 == 0 else dict(x, allOf=[y])
+            for req in (0, 1):
+                s = {"type": "object", "properties": {"kind": inner, "name": {"type": "string", "maxLength": 3}},
+                     "required": ["kind"] if req else [], "additionalProperties": False}
+                inst = ["{}", '{"name":"x"}'] + ['{"kind":"%s"}' % v for v in strs] + ['{"kind":"%s","name":"x"}' % v for v in strs[:2]]
+                out.append((f"allof:str{k}:{req}", s, inst))
+            k += 1
+    return out
+
+
 def top_schema(rng, full=False, depth=2):
     ctx = Ctx(rng, full)
     s = gen_schema(ctx, depth)
